@@ -84,6 +84,9 @@ func (p *PipeServer) Dial() net.Conn {
 // safety deadline for client reads: a machinery watchdog, never an oracle.
 const ioDeadline = 20 * time.Second
 
+// HangLimit bounds one in-memory exchange outside the scheduler (see ServeRecorded).
+var HangLimit = 60 * time.Second
+
 // Do sends one raw request on a fresh connection and reads the response.
 func (p *PipeServer) Do(raw string) *Resp {
 	c := p.Dial()
@@ -252,10 +255,27 @@ func ServeRecorded(h http.Handler, raw string, ctx context.Context, rec *Recorde
 		rec = NewRecorder(req.Method)
 	}
 	var pan any
-	func() {
+	serve := func() {
 		defer func() { pan = recover() }()
 		h.ServeHTTP(rec, req)
-	}()
+	}
+	if vsched.Mode() == 0 {
+		// No scheduler, hence no step horizon: a handler that never returns (a spin, a lock that is never
+		// released) would hang the whole check. Give it a minute of real time - exchanges take
+		// microseconds - then report the hang as "no response" and leave the goroutine behind.
+		done := make(chan struct{})
+		go func() {
+			defer close(done)
+			serve()
+		}()
+		select {
+		case <-done:
+		case <-time.After(HangLimit):
+			return &Resp{Header: http.Header{}, Dropped: true, Err: "the handler did not return within " + HangLimit.String() + " of real time (hang)"}
+		}
+	} else {
+		serve()
+	}
 	res := rec.Result()
 	if pan != nil {
 		if pan == http.ErrAbortHandler {
